@@ -25,6 +25,7 @@ func (m *countedLock) Lock(ctx context.Context) bool {
 	if ctx.Err() != nil {
 		return false
 	}
+	verifYield("countedLock.Lock.checked", func() bool { return m.verifFree() || ctx.Err() != nil })
 	select {
 	case m.ch <- struct{}{}:
 		return true
